@@ -157,7 +157,8 @@ def main(tier, replay=None):
     base = C.scratch_dir("c09")
     if replay:
         return do_replay(replay, ucg, base)
-    cfgs = ["c09_pos", "c09_graph_q", "c09_twin"] if tier == "quick" else ["c09_pos", "c09_graph_t", "c09_twin", "c09_graph4"]
+    cfgs = (["c09_pos", "c09_graph_q", "c09_twin", "c09_std"] if tier == "quick"
+            else ["c09_pos", "c09_graph_t", "c09_twin", "c09_graph4", "c09_std"])
     budget = 900 if tier == "quick" else 6000
     opendevs = B.open_deviations() & DEVS
     states = trans = 0
@@ -174,7 +175,9 @@ def main(tier, replay=None):
         trans += r.generated
         C.log("[c09] %s: %d states, %d projects x cwd, %.0fs" % (cfg, r.distinct, len(r.replays), r.wall))
         for c in r.replays:
-            cases.setdefault(B.case_key(c), c)
+            k = B.case_key(c)
+            c["_cfg"] = cfg
+            cases.setdefault(k, c)
         if r2 is not None:
             C.require_tlc_ok(r2, cfg + " with deviations")
             cmds.append(r2.cmd)
@@ -209,14 +212,33 @@ def main(tier, replay=None):
     chosen = []
     slow = 0      # projects on which an open deviation predicts resource exhaustion: a few are enough
     slow_cap = 8 if tier == "quick" else 60
+    # every configuration gets its share of the budget (a small one is taken whole), and within a configuration
+    # no outcome class more than half of it: the graph families are dominated by cycles, whose builds say little
+    # about evaluation counts
+    share = {}
+    later = []
+    per_cfg = max(1, budget // max(1, len(set(c.get("_cfg") for c in cases.values()))))
     for g in gkeys:
+        c0 = cases[groups[g][0]]
+        cf = c0.get("_cfg")
+        e0 = c0["expect"][0]["files"][0]
+        cl = "ok" if e0["okay"] else ("cycle" if "ImportCycle" in e0["clss"] else "fail")
+        if share.get(cf, 0) + len(groups[g]) > per_cfg or share.get((cf, cl), 0) + len(groups[g]) > (per_cfg + 1) // 2:
+            later.append(g)
+            continue
         if len(chosen) + len(groups[g]) > budget:
             break
+        share[cf] = share.get(cf, 0) + len(groups[g])
+        share[(cf, cl)] = share.get((cf, cl), 0) + len(groups[g])
         ds = devcases.get(groups[g][0]) or []
         if any(d["got"][0]["exit"] == 134 or "RawPathKeys" in d["fired"] for d in ds):
             slow += 1
             if slow > slow_cap:
                 continue
+        chosen += sorted(groups[g])
+    for g in later:             # what the shares left of the budget
+        if len(chosen) + len(groups[g]) > budget:
+            break
         chosen += sorted(groups[g])
     jobs = [(i, cases[k], devcases.get(k), ucg, base, sd) for i, k in enumerate(chosen)]
     cnt = {"cycle -> diagnostic": 0, "build ok": 0, "same file imported twice": 0, "import through an import": 0,
